@@ -134,6 +134,7 @@ def r172(ctx, api):
 
 def r173(ctx, api):
     r175(ctx)
+    r176(ctx)
     from . import c20 as _c20
     _c20.r202(ctx)
     from . import c14, meta_rules, c01
@@ -202,3 +203,23 @@ def r175(ctx, rule='R17.5'):
                'stop - start = %s, size*step = %s: a range has ceil((stop-start)/step) labels, which is `size` for every '
                'non-zero step only when they are equal (an extra +1 loses a label for step -1; a missing `* step` '
                'mislabels every stepped range)' % (diff, want), api.loc(c))
+
+
+def r176(ctx, rule='R17.6'):
+    """_dtypes, foreign metadata: (a) a chunk whose statistics lack a null count may hold nulls - the scan that decides
+    on a nullable dtype treats a missing count like a positive one; (b) the numpy_type of the pandas metadata replaces
+    the dtype implied by the schema only when it is a datetime64 spelling, and is looked up without assuming the
+    column is listed"""
+    api = ctx.repo['api']
+    f = api.func('ParquetFile._dtypes')
+    tests = [x for x in walk_no_nested(f) if isinstance(x, ast.If) and 'st.get(3)' in norm(x.test)]
+    ok = len(tests) == 1 and 'st.get(3) is None' in norm(tests[0].test)
+    ctx.ob(rule, 'api._dtypes:missing-null-count-counts-as-possible-nulls', ok,
+           '`if %s:` - statistics without null_count say nothing about nulls' % (norm(tests[0].test) if tests else '?'), api.loc(tests[0]) if tests else api.loc(f))
+    uses = [st for st in walk_no_nested(f) if isinstance(st, ast.Assign) and norm(st.targets[0]) == 'dt' and 'numpy_type' in norm(st.value)]
+    direct = [st for st in uses if "md[col]['numpy_type']" in norm(st.value)]
+    ctx.ob(rule, 'api._dtypes:pandas-metadata-resolution-taken-only-when-it-is-a-datetime', not direct,
+           '`%s`: other writers record "object" for DATE columns and may not list a column at all' % (norm(direct[0]) if direct else 'guarded'),
+           api.loc(direct[0]) if direct else api.loc(f))
+    guard = [x for x in walk_no_nested(f) if isinstance(x, ast.If) and "'datetime64' in" in norm(x.test)]
+    ctx.ob(rule, 'api._dtypes:datetime-resolution-override-is-guarded', len(guard) == 1, '', api.loc(f))
